@@ -1,5 +1,5 @@
 """C27 - Experimental compiler agrees with the stable compiler (differential, with a small proved core)."""
-import re
+import os, re, shutil
 from vlib import *
 import pgenlib
 
@@ -397,7 +397,7 @@ def norm_err(e):
     e = re.sub(r"^[^ ]*:\d+:\d+: ", "", e)
     e = re.sub(r"[`\"'][^`\"']*[`\"']", "_", e)
     e = re.sub(r"\b\w+(\.\w+)+\b", "_", e)          # qualified names and file names
-    e = re.sub(r"\b(message|field|enum|extension|method|service|oneof|file) [\w.]+:", r"\1 _:", e)
+    e = re.sub(r"^(message|field|enum|extension|method|service|oneof|file) [\w.]+: ", "", e)
     e = re.sub(r"-?\d+", "N", e)
     e = re.sub(r"[^A-Za-z_N]+", "-", e).strip("-")
     return e[:72].rstrip("-")
@@ -405,8 +405,9 @@ def norm_err(e):
 
 def norm_path(d):
     d = d.replace(".nested_type", "")
-    d = re.sub(r"\(([\w.]*\.)?(\w+)\)", lambda m: "(" + m.group(2) + ")", d)
-    d = re.sub(r"\d+", "#", d)
+    d = re.sub(r"\([\w.]+\)", "(ext)", d)              # whichever custom option it is
+    if not d.endswith(".default_value"):
+        d = re.sub(r"<TYPE_\w+>", "", d)                # the field type matters for default values only
     return d
 
 
@@ -440,12 +441,129 @@ HEADER = ("From Coq Require Import List NArith ZArith Bool.\nImport ListNotation
           "From PV Require Import Common.Corr Model.DualCore.\nOpen Scope Z_scope.\n")
 
 
+def judge(ctx, files, request, klass, o, terms, meta):
+    """the differential oracle on one file set: o is the harness's answer (mode compile)"""
+    key = (tuple(sorted(files.items())), tuple(request))
+    replay = {"files": files, "request": request, "generated_as": klass}
+    if "crash" in o or "panic" in o:
+        ctx.count(key, True, "crash")
+        ctx.violation("panic", "one of the compilers panicked (or the harness crashed) on a generated file set", dict(replay, observed=o))
+        return
+    so, sn = o["old"], o["new"]
+    verdict = ("accept" if so["ok"] else "reject") + "/" + ("accept" if sn["ok"] else "reject")
+    ctx.count(key, so["ok"] or sn["ok"], klass.split(":")[0] + " " + verdict)
+    replay["stable"] = so
+    replay["experimental"] = sn
+    if so["ok"] != sn["ok"]:
+        if so["ok"]:
+            k2 = "stable-accepts-experimental-rejects:" + norm_err((sn["errs"] or ["?"])[0])
+            what = "the stable compiler accepts the file set, the experimental compiler rejects it"
+        else:
+            k2 = "stable-rejects-experimental-accepts:" + norm_err((so["errs"] or ["?"])[0])
+            what = "the stable compiler rejects the file set, the experimental compiler accepts it"
+        if not excluded(k2, replay, o):
+            ctx.violation(k2, what, replay)
+        return
+    if not so["ok"]:
+        return
+    if "cmp_error" in o:
+        ctx.violation("comparison-failed", "the two descriptors could not be compared: " + o["cmp_error"], replay)
+        return
+    for f in o["cmp"]:
+        for d in f["diffs"]:
+            k2 = "descriptor-differs:" + norm_path(d)
+            if not excluded(k2, replay, o):
+                ctx.violation(k2, "both compilers accept the file set but the descriptors of %s differ at %s" % (f["path"], d),
+                              dict(replay, file=f["path"], differences=f["diffs"], details=f.get("details", [])))
+    for f, tr in zip(o["cmp"], o.get("trees") or []):
+        terms.append("DC (%s) (%s) %s" % (tree_term(tr["old"]), tree_term(tr["new"]), coq_bool(f["equal"])))
+        meta.append(("compile", replay, f))
+
+
+def three_way(ctx, terms, meta):
+    """Programs of the MiniProto fragment (generator, renderer, model and specification of C01 / C02, by their builder:
+    checks/miniproto_gen.py, Model/Validate.v, Model/SpecOracle.v): the verdict and the descriptor projection of BOTH compilers
+    are evaluated against the specification inside coqc.  A stable-vs-experimental difference is reported by the differential
+    oracle; this stage adds which side the specification is on and counts the three-way agreements."""
+    import miniproto_gen as G
+    rng = ctx.rng
+    progs = G.gen_cases(rng, ctx.budget(25, 1500), 1, small=True)
+    texts = G.render_sets(rng, progs)
+    orders = [[f["name"] for f in files] for _, files in progs]
+    so = ctx.impl("miniproto", G.compile_inputs(texts, orders))
+    tmp = os.path.join(CACHE, "c27sets-%d" % os.getpid())
+    os.makedirs(tmp, exist_ok=True)
+    try:
+        eo = ctx.impl("dualcompile", [{"mode": "fdset", "files": t, "request": o, "out": os.path.join(tmp, "%d.binpb" % k)}
+                                      for k, (t, o) in enumerate(zip(texts, orders))])
+        okk = [k for k, o in enumerate(eo) if o.get("ok")]
+        po = ctx.impl("miniproto", [{"mode": "protoset", "path": os.path.join(tmp, "%d.binpb" % k)} for k in okk])
+    finally:
+        shutil.rmtree(tmp, ignore_errors=True)
+    proj_e = dict(zip(okk, po))
+    # the differential oracle on these programs as on all others
+    for (label, _), t, od, o in zip(progs, texts, orders, ctx.impl("dualcompile", [{"mode": "compile", "files": t, "request": od}
+                                                                                   for t, od in zip(texts, orders)])):
+        judge(ctx, t, od, "miniproto:" + label, o, terms, meta)
+    verdict_terms, vmeta, desc_terms, dmeta = [], [], [], []
+    for k, ((label, files), t) in enumerate(zip(progs, texts)):
+        if "ok" not in so[k] or "ok" not in eo[k]:
+            continue
+        verdict_terms.append(G.spec_term(files, bool(so[k]["ok"])))
+        vmeta.append((k, "stable"))
+        verdict_terms.append(G.spec_term(files, bool(eo[k]["ok"])))
+        vmeta.append((k, "experimental"))
+        if so[k]["ok"] and eo[k]["ok"] and "fds" in proj_e.get(k, {}):
+            ts, te = G.c02_terms(files, so[k]), G.c02_terms(files, proj_e[k])
+            if ts is not None and te is not None:
+                desc_terms.append(ts[1])
+                dmeta.append((k, "stable"))
+                desc_terms.append(te[1])
+                dmeta.append((k, "experimental"))
+    vbad, err = coq_eval_mismatches("cases_C27_tv", G.HEADER, verdict_terms, "spec_chk", shard_size=max(8, len(verdict_terms) // NCPU + 1))
+    if err:
+        raise RuntimeError(err)
+    dbad, err = coq_eval_mismatches("cases_C27_td", G.HEADER, desc_terms, "spec_desc_chk", shard_size=max(4, len(desc_terms) // NCPU + 1))
+    if err:
+        raise RuntimeError(err)
+    off = {}            # program index -> set of sides that differ from the specification
+    for i in vbad:
+        off.setdefault(vmeta[i][0], set()).add(vmeta[i][1] + "-verdict")
+    for i in dbad:
+        off.setdefault(dmeta[i][0], set()).add(dmeta[i][1] + "-descriptor")
+    agree = 0
+    sides = {"only-experimental-differs-from-spec": 0, "only-stable-differs-from-spec": 0, "both-differ-from-spec": 0}
+    for k, (label, files) in enumerate(progs):
+        if "ok" not in so[k] or "ok" not in eo[k]:
+            continue
+        o = off.get(k, set())
+        s_off = any(x.startswith("stable") for x in o)
+        e_off = any(x.startswith("experimental") for x in o)
+        if not o:
+            agree += 1
+        elif s_off and e_off:
+            sides["both-differ-from-spec"] += 1
+        elif e_off:
+            sides["only-experimental-differs-from-spec"] += 1
+            rp = {"files": texts[k], "request": orders[k], "generated_as": "miniproto:" + label, "differs": sorted(o),
+                  "stable": {"ok": so[k]["ok"]}, "experimental": {"ok": eo[k]["ok"], "errs": eo[k].get("errs", [])}}
+            if so[k]["ok"] != eo[k]["ok"]:
+                continue        # an accept/reject difference: reported by the differential oracle below with its own key
+            ctx.violation("descriptor-differs:experimental-differs-from-specification",
+                          "both compilers accept the file set; the stable compiler's descriptor projection equals the C02 specification's, "
+                          "the experimental compiler's does not", rp)
+        else:
+            sides["only-stable-differs-from-spec"] += 1
+    ctx.extra["three_way"] = dict(sides, programs=len(progs), all_three_agree=agree,
+                                  note="specification = Model/SpecOracle.v (C01 verdict, C02 descriptor projection); a row counts a program once")
+
+
 def run(ctx):
     rng = ctx.rng
     cases = []          # (files, request, klass)
     for c in corpus():
         cases.append(c)
-    n = ctx.budget(900, 30000)
+    n = ctx.budget(700, 30000)
     for k in range(n):
         r = rng.below(10)
         if r < 4:
@@ -466,41 +584,14 @@ def run(ctx):
     outs = ctx.impl("dualcompile", ins)
     terms, meta = [], []
     for (files, request, klass), i, o in zip(cases, ins, outs):
-        key = (tuple(sorted(files.items())), tuple(request))
-        replay = {"files": files, "request": request, "generated_as": klass}
-        if "crash" in o or "panic" in o:
-            ctx.count(key, True, "crash")
-            ctx.violation("panic", "one of the compilers panicked (or the harness crashed) on a generated file set", dict(replay, observed=o))
-            continue
-        so, sn = o["old"], o["new"]
-        verdict = ("accept" if so["ok"] else "reject") + "/" + ("accept" if sn["ok"] else "reject")
-        ctx.count(key, so["ok"] or sn["ok"], klass.split(":")[0] + " " + verdict)
-        replay["stable"] = so
-        replay["experimental"] = sn
-        if so["ok"] != sn["ok"]:
-            if so["ok"]:
-                k2 = "stable-accepts-experimental-rejects:" + norm_err((sn["errs"] or ["?"])[0])
-                what = "the stable compiler accepts the file set, the experimental compiler rejects it"
-            else:
-                k2 = "stable-rejects-experimental-accepts:" + norm_err((so["errs"] or ["?"])[0])
-                what = "the stable compiler rejects the file set, the experimental compiler accepts it"
-            if not excluded(k2, replay, o):
-                ctx.violation(k2, what, replay)
-            continue
-        if not so["ok"]:
-            continue
-        if "cmp_error" in o:
-            ctx.violation("comparison-failed", "the two descriptors could not be compared: " + o["cmp_error"], replay)
-            continue
-        for f in o["cmp"]:
-            for d in f["diffs"]:
-                k2 = "descriptor-differs:" + norm_path(d)
-                if not excluded(k2, replay, o):
-                    ctx.violation(k2, "both compilers accept the file set but the descriptors of %s differ at %s" % (f["path"], d),
-                                  dict(replay, file=f["path"], differences=f["diffs"], details=f.get("details", [])))
-        for f, tr in zip(o["cmp"], o.get("trees") or []):
-            terms.append("DC (%s) (%s) %s" % (tree_term(tr["old"]), tree_term(tr["new"]), coq_bool(f["equal"])))
-            meta.append(("compile", replay, f))
+        judge(ctx, files, request, klass, o, terms, meta)
+    # ---- third leg: the MiniProto specification of C01 / C02, where it is available
+    try:
+        three_way(ctx, terms, meta)
+    except BuildFailed:
+        raise
+    except Exception as e:
+        ctx.notes.append("three-way stage (stable vs experimental vs the C01/C02 specification) not run: %s: %s" % (type(e).__name__, str(e)[:300]))
     # ---- the comparison against perturbed descriptors: what it ignores and what it must see
     pins = []
     pbase = [c for c in cases if c[2] in ("program", "focus", "corpus")]
